@@ -1037,3 +1037,137 @@ example (F : IdxN → ℚ) :
               / ((1 / 2 : ℚ) * (1 / 2)) :=
   C13.laplacianN_eq_second_difference .constant (Or.inl rfl) _ 5 (fun _ _ => by omega) 7 _ F _
     (fun _ _ => by omega)
+
+
+/-! ### ROUND 4: `.adjoint` / `.derivative` read from the source (`adjSpec`, `derivSpec`)
+
+Until round 3 the four `return [-]Cls(…)` expressions of `.adjoint` and the four bodies of
+`.derivative` were hand-written in `Op.adjoint` / `Op.derivative` and pinned as text.  Now the
+translator reads them into `Gen.adjSpec` / `Gen.derivSpec`; `Op.adjointBy` / `Op.derivativeBy`
+interpret the data, are executed by the driver's `cfgg` op and compared with the objects
+`op.adjoint` / `op.derivative(x)` of the real classes (branches `cfgg/…`).  The theorems below
+are about THAT executed definition and use of the spec only what they need (`_ADJ_METHOD`,
+`_ADJ_PADDING`, the minus sign): an edit that, say, passes `pad_const` on in
+`Divergence.adjoint` is re-proved, one that drops the sign or a table lookup is refuted. -/
+
+/-- the class an adjoint must be of (textbook pairing, written down independently) -/
+def OdlModel.C13.partner : Kind → Kind
+  | .pd => .pd | .grad => .div | .div => .grad | .lap => .lap
+
+/-- The instance `Op.adjointBy` builds from the GENERATED `adjSpec` (executed by `cfgg
+act=adjoint`) IS minus the transpose of the instance's 1-d action, for EVERY linear
+PartialDerivative / Gradient / Divergence instance (any carried `pad_const`), every `n` on which
+both leaves run; it has the flipped sign flag and the partner class (pd ↦ pd, grad ↦ div,
+div ↦ grad). -/
+theorem C13.op_adjointBy_is_transpose {K : Type} [Field K] [DecidableEq K] (o : Op K)
+    (hk : o.kind ≠ .lap) (hl : o.isLinear affineAware = true) (n : Nat)
+    (h : sizeCheck guards (tbl o.method o.pad) o.pad n = none)
+    (h' : sizeCheck guards (tbl (adjMethod o.method) (adjPad o.pad)) (adjPad o.pad) n = none)
+    (dx : K) (f g : Nat → K) :
+    ∃ a, o.adjointBy affineAware adjGuarded adjSpec adjMethod adjPad = some a ∧
+      a.neg = !o.neg ∧
+      a.kind = partner o.kind ∧
+      ∑ i ∈ range n, g i * fd den (tbl o.method o.pad) n o.c dx f i
+        = - ∑ j ∈ range n, f j * fd den (tbl a.method a.pad) n a.c dx g j := by
+  obtain ⟨k, m, p, c, neg⟩ := o
+  have key := C13.fd_adjoint_transpose m p n h h' dx f g
+  have hcp : adjPad p = .constant ↔ p = .constant := by cases p <;> decide
+  have hc0 : p = .constant → c = 0 := by
+    intro hp; cases k <;> simp_all [Op.isLinear, affineAware]
+  have e1 : ∀ i, fd den (tbl m p) n c dx f i = fd den (tbl m p) n 0 dx f i := by
+    intro i
+    by_cases hp : p = .constant
+    · rw [hc0 hp]
+    · exact C13.pad_const_ignored_unless_constant m p hp n c dx f i
+  have e2 : ∀ c' : K, (c' = c ∨ c' = 0) → ∀ j, fd den (tbl (adjMethod m) (adjPad p)) n c' dx g j
+      = fd den (tbl (adjMethod m) (adjPad p)) n 0 dx g j := by
+    intro c' hc' j
+    by_cases hp : p = .constant
+    · rcases hc' with rfl | rfl <;> simp [hc0 hp]
+    · exact C13.pad_const_ignored_unless_constant _ _ (fun hh => hp (hcp.1 hh)) n c' dx g j
+  -- what is used of the generated spec: both table lookups and the sign (decided on Gen)
+  have hs : (adjSpec k).adjM = true ∧ (adjSpec k).adjP = true ∧ (adjSpec k).neg = true ∧
+      (adjSpec k).kind = partner k := by
+    cases k <;> first | exact absurd rfl hk | decide
+  have hg : (adjGuarded k && !(Op.isLinear affineAware (⟨k, m, p, c, neg⟩ : Op K))) = false := by
+    simp only [hl]; simp
+  refine ⟨⟨(adjSpec k).kind, adjMethod m, adjPad p, if (adjSpec k).keepC then c else 0, !neg⟩,
+    ?_, rfl, hs.2.2.2, ?_⟩
+  · simp only [Op.adjointBy, hg, hs.1, hs.2.1, hs.2.2.1]; simp
+  · simp only [e1, key]
+    by_cases hkc : (adjSpec k).keepC = true
+    · simp only [hkc, if_true, e2 c (Or.inl rfl)]
+    · simp only [hkc]; simp
+
+example (f g : Nat → ℚ) : ∃ a, (⟨.div, .forward, .order1, (3 : ℚ), false⟩ : Op ℚ).adjointBy
+      affineAware adjGuarded adjSpec adjMethod adjPad = some a ∧ a.neg = true ∧ a.kind = .grad ∧
+    ∑ i ∈ range 4, g i * fd den (tbl .forward .order1) 4 3 (1 / 2) f i
+      = - ∑ j ∈ range 4, f j * fd den (tbl a.method a.pad) 4 a.c (1 / 2) g j := by
+  simpa [partner] using C13.op_adjointBy_is_transpose (⟨.div, .forward, .order1, (3 : ℚ), false⟩ : Op ℚ)
+    (by decide) (by simp [Op.isLinear, affineAware]) 4 (by decide) (by decide) (1 / 2) f g
+
+/-- `Laplacian.adjoint` as READ from the source (`adjSpec .lap`: same class, same pad mode,
+no `_ADJ_PADDING`, no sign, `pad_const` reset): the instance `Op.adjointBy` builds is the
+transpose of the 1-d Laplacian action `fwd − bwd`, for every linear instance with an accepted
+pad mode and every `n ≥ 2`. -/
+theorem C13.lap_adjointBy_is_transpose {K : Type} [Field K] [DecidableEq K] (o : Op K)
+    (hk : o.kind = .lap) (hl : o.isLinear affineAware = true) (hp : o.pad ∉ lapRejected)
+    (n : Nat) (hn : 2 ≤ n) (dx : K) (f g : Nat → K) :
+    ∃ a, o.adjointBy affineAware adjGuarded adjSpec adjMethod adjPad = some a ∧
+      a.neg = o.neg ∧ a.kind = .lap ∧ a.isLinear affineAware = true ∧
+      ∑ i ∈ range n, g i * (fd den (tbl .forward o.pad) n o.c dx f i
+          - fd den (tbl .backward o.pad) n o.c dx f i)
+        = ∑ j ∈ range n, f j * (fd den (tbl .forward a.pad) n a.c dx g j
+          - fd den (tbl .backward a.pad) n a.c dx g j) := by
+  obtain ⟨k, m, p, c, neg⟩ := o
+  simp only at hk hp; subst hk
+  have hc0 : p = .constant → c = 0 := by
+    intro hp'; simp_all [Op.isLinear, affineAware]
+  have e1 : ∀ (mm : Method) i, fd den (tbl mm p) n c dx f i = fd den (tbl mm p) n 0 dx f i := by
+    intro mm i
+    by_cases hp' : p = .constant
+    · rw [hc0 hp']
+    · exact C13.pad_const_ignored_unless_constant mm p hp' n c dx f i
+  have hg : (adjGuarded .lap && !(Op.isLinear affineAware (⟨.lap, m, p, c, neg⟩ : Op K)))
+      = false := by simp only [hl]; simp
+  refine ⟨⟨.lap, m, p, 0, neg⟩, ?_, rfl, rfl, by simp [Op.isLinear, affineAware], ?_⟩
+  · simp only [Op.adjointBy, hg]; simp [adjSpec]
+  · simp only [e1]
+    exact C13.laplacian1_selfadjoint p hp n hn dx f g
+
+example (f g : Nat → ℚ) : ∃ a, (⟨.lap, .forward, .symmetric, (5 : ℚ), false⟩ : Op ℚ).adjointBy
+      affineAware adjGuarded adjSpec adjMethod adjPad = some a ∧ a.neg = false ∧ a.kind = .lap ∧
+      a.isLinear affineAware = true ∧
+    ∑ i ∈ range 3, g i * (fd den (tbl .forward .symmetric) 3 5 2 f i
+          - fd den (tbl .backward .symmetric) 3 5 2 f i)
+      = ∑ j ∈ range 3, f j * (fd den (tbl .forward a.pad) 3 a.c 2 g j
+          - fd den (tbl .backward a.pad) 3 a.c 2 g j) := by
+  simpa using C13.lap_adjointBy_is_transpose (⟨.lap, .forward, .symmetric, (5 : ℚ), false⟩ : Op ℚ)
+    rfl (by simp [Op.isLinear, affineAware]) (by decide) 3 (by decide) 2 f g
+
+/-- The instance `Op.derivativeBy` builds from the GENERATED `derivSpec` (executed by `cfgg
+act=derivative`, compared with `op.derivative(x)`) IS the derivative of the instance's 1-d
+action, for every instance of every class: `D_o(f+h) − D_o(f) = D_{o'}(h)`; `o'` is of the
+same class, flagged linear, and its own derivative. -/
+theorem C13.op_derivativeBy_is_derivative {K : Type} [Field K] [DecidableEq K] (o : Op K)
+    (n : Nat) (hn : 2 ≤ n) (dx : K) (f h : Nat → K) (i : Nat) :
+    let o' := o.derivativeBy derivSpec
+    (fd den (tbl o.method o.pad) n o.c dx (fun k => f k + h k) i
+        - fd den (tbl o.method o.pad) n o.c dx f i
+      = fd den (tbl o'.method o'.pad) n o'.c dx h i) ∧
+    o'.kind = o.kind ∧ o'.isLinear affineAware = true ∧ o'.derivativeBy derivSpec = o' := by
+  have base := C13.op_derivative_is_derivative o n hn dx f h i
+  have e0 : ∀ o : Op K, o.derivativeBy derivSpec = o.derivative := by
+    rintro ⟨k, m, p, c, neg⟩
+    cases k <;> simp [Op.derivativeBy, Op.derivative, derivSpec]
+  have e := e0 o
+  have e' := e0 o.derivative
+  have hkind : o.derivative.kind = o.kind := by
+    obtain ⟨k, m, p, c, neg⟩ := o
+    simp only [Op.derivative]; split_ifs <;> rfl
+  simp only [e, e']
+  exact ⟨base.1, hkind, base.2.1, base.2.2⟩
+
+example : (⟨.grad, .backward, .constant, (3 : ℚ), false⟩ : Op ℚ).derivativeBy derivSpec
+    = ⟨.grad, .backward, .constant, 0, false⟩ := by
+  simp [Op.derivativeBy, derivSpec]
